@@ -2,11 +2,13 @@ module verifharness
 
 go 1.18
 
-require github.com/bytedance/sonic v0.0.0
+require (
+	github.com/bytedance/sonic v0.0.0
+	github.com/bytedance/sonic/loader v0.5.1
+)
 
 require (
 	github.com/bytedance/gopkg v0.1.3 // indirect
-	github.com/bytedance/sonic/loader v0.5.1 // indirect
 	github.com/cloudwego/base64x v0.1.6 // indirect
 	github.com/klauspost/cpuid/v2 v2.2.9 // indirect
 	github.com/twitchyliquid64/golang-asm v0.15.1 // indirect
